@@ -100,6 +100,8 @@ def no_aslr_prefix():
     global _NOASLR
     if _NOASLR is None:
         _NOASLR = []
+        if os.environ.get("VERIF_NO_SETARCH"):
+            return _NOASLR  # self-test of the fallback: run with address-space randomisation on
         try:
             import platform
 
